@@ -1,1 +1,105 @@
-fn main(){ let v: serde_json::Value = serde_json::json!({"a":1}); println!("{}", v); unsafe{ libc::getpid(); } }
+mod corpus;
+mod engine;
+mod exec;
+mod faults;
+mod oracle;
+mod plan;
+mod programs;
+mod props;
+mod replay;
+mod rng;
+mod shrink;
+mod w2;
+mod w3;
+mod world;
+
+use engine::{Ctx, Property};
+use std::path::PathBuf;
+
+fn all_props() -> Vec<Box<dyn Property>> {
+    vec![Box::new(props::c02::C02), Box::new(props::c03::C03), Box::new(props::c19::C19)]
+}
+
+fn usage() -> ! {
+    eprintln!("usage: seedsim <ID> quick|thorough | replay <file> | gen-w2 <seed> [layout] | selfcheck-determinism <ID>");
+    std::process::exit(2);
+}
+
+fn main() {
+    let args: Vec<String> = std::env::args().collect();
+    if args.len() < 2 {
+        usage();
+    }
+    let verif_dir = PathBuf::from(std::env::var("SEEDSIM_VERIF_DIR").unwrap_or_else(|_| "/verif".into()));
+    let repo = PathBuf::from(std::env::var("SEEDSIM_REPO").unwrap_or_else(|_| "/repo".into()));
+    let exe = PathBuf::from(std::env::var("SEEDSIM_EXE").unwrap_or_else(|_| repo.join("target/debug/seed").to_string_lossy().to_string()));
+    let shim = verif_dir.join("build/libseedsim.so");
+    let seed: u64 = std::env::var("VERIF_SEED").ok().and_then(|v| v.parse().ok()).unwrap_or(20_260_930);
+
+    if args[1] == "gen-w2" {
+        let s: u64 = args.get(2).and_then(|v| v.parse().ok()).unwrap_or(1);
+        let layout = args.get(3).map(|v| v == "layout").unwrap_or(false);
+        let mut rng = rng::Rng::new(s);
+        let p = w2::pick_with(&mut rng, &w2::GenOpts::default(), layout);
+        let b = w2::build(&p.aux);
+        print!("{}", String::from_utf8_lossy(&b.text));
+        eprintln!("--- model stdout ---\n{}", String::from_utf8_lossy(&b.stdout));
+        eprintln!("--- events: {} nodes: {} ---", b.events.len(), b.site.len());
+        return;
+    }
+
+    if !exe.exists() {
+        eprintln!("HARNESS-ERROR: seed binary not found at {}", exe.display());
+        std::process::exit(2);
+    }
+    if !shim.exists() {
+        eprintln!("HARNESS-ERROR: shim not found at {} (run setup)", shim.display());
+        std::process::exit(2);
+    }
+    let scratch = exec::make_scratch();
+    let cfg = exec::Config { exe, shim, scratch: scratch.clone() };
+    exec::start_watchdog();
+    let corpus = corpus::load(&repo.join("tests/stdout"));
+    let props = all_props();
+
+    let code = if args[1] == "w2-baseline" {
+        let n: u64 = args.get(2).and_then(|v| v.parse().ok()).unwrap_or(1000);
+        let ctx = Ctx::new(cfg, seed, "quick", corpus, verif_dir);
+        let mut bad = 0;
+        let mut ev = 0usize;
+        for i in 0..n {
+            let mut rng = rng::Rng::for_run(seed, "w2-baseline", i);
+            let p = w2::pick(&mut rng, &w2::GenOpts::default());
+            let b = w2::build(&p.aux);
+            ev += b.events.len();
+            let r = ctx.reference(0, &p.program);
+            if r.stdout != b.stdout || r.status != exec::Status::Exit(0) || !r.stderr.is_empty() {
+                bad += 1;
+                if bad <= 3 {
+                    let f = format!("/tmp/probe/bad{bad}.sd");
+                    let _ = std::fs::write(&f, &p.program);
+                    println!("MISMATCH #{i} aux={} status={} stderr={} -> {f}", p.aux, r.status.render(), String::from_utf8_lossy(&r.stderr));
+                }
+            }
+        }
+        println!("w2-baseline: {n} programs, {bad} mismatches, {} events avg", ev as f64 / n as f64);
+        i32::from(bad > 0)
+    } else if args[1] == "replay" {
+        let file = args.get(2).cloned().unwrap_or_else(|| usage());
+        let ctx = Ctx::new(cfg, seed, "quick", corpus, verif_dir);
+        replay::replay(&ctx, &props, &file)
+    } else {
+        let id = args[1].clone();
+        let tier = args.get(2).cloned().unwrap_or_else(|| std::env::var("VERIF_TIER").unwrap_or_else(|_| "quick".into()));
+        let ctx = Ctx::new(cfg, seed, &tier, corpus, verif_dir);
+        match props.iter().find(|p| p.id() == id) {
+            Some(p) => engine::run_property(&ctx, p.as_ref()).exit_code,
+            None => {
+                eprintln!("HARNESS-ERROR: unknown property {id}");
+                2
+            }
+        }
+    };
+    exec::remove_scratch(&scratch);
+    std::process::exit(code);
+}
